@@ -25,13 +25,17 @@ func init() {
 				"reply, and that function accepts only replies whose ID, question count, question type and (case-insensitively) " +
 				"name equal the request's.",
 			NotCovered: "the up/down state machine over all fault sequences and the timing of the backoff (run-time quantities).",
-			Rules: map[string]string{"C17-R7": "upstream connection pool: Get hands out only connections that passed the idle-expiry test (expired ones are closed), Put queues or closes", "C17-R1": "ServeDNS fail-over table", "C17-R2": "who replaces the active set, under which lock and gate",
+			Rules: map[string]string{"C17-R8": "every fmt.Errorf that reports an error value wraps it with %w (the fail-over decision classifies causes with errors.As)", "C17-R7": "upstream connection pool: Get hands out only connections that passed the idle-expiry test (expired ones are closed), Put queues or closes", "C17-R1": "ServeDNS fail-over table", "C17-R2": "who replaces the active set, under which lock and gate",
 				"C17-R3": "health probe state table", "C17-R5": "configuration wiring: main servers, fallback servers and health-check settings of the configuration reach the handler's fields of the same meaning",
 				"C17-R4": "reply validation tables"},
 		}})
 }
 
 func runC17(c *an.Ctx) {
+	// ---- R8: errors keep their cause on the way to the fail-over decision (ServeDNS classifies them as network errors)
+	if n := sharedErrorChain(c, "C17-R8", errChainExceptions, ""); n < 20 {
+		c.Und("C17-R8", "error wrapping", token.NoPos, "only %d fmt.Errorf calls with an error argument found", n)
+	}
 	c17Pool(c)
 	// ---- C17-R6: builder wiring of the components this property rests on
 	c.Floor("C17-R6", 1)
@@ -988,4 +992,12 @@ func c17Pool(c *an.Ctx) {
 		})
 		c.Check(bad == "", "C17-R7", put+" queues or closes the connection", fn.Pos(), "the connection is queued, or closed when the pool is full or closed", bad)
 	}
+}
+
+
+// errChainExceptions lists the fmt.Errorf calls that format an error value
+// without %w on purpose, confirmed by reading.
+var errChainExceptions = map[string]string{
+	"debugsvc.runServer":     "the error is only used as a panic message at start-up; nothing classifies it",
+	"backendpb.fixGRPCError": "deliberately replaces the gRPC status error by context.DeadlineExceeded (wrapped) and keeps only the text of the original",
 }
